@@ -86,7 +86,7 @@ Qed.
 Lemma lstrip_digit c s : is_decimal c = true -> lstrip (c :: s) = c :: s.
 Proof.
   unfold is_decimal. intros H. cbn [lstrip]. unfold is_space.
-  replace ((9 <=? c) && (c <=? 13) || (28 <=? c) && (c <=? 32)) with false by lia. reflexivity.
+  replace ((9 <=? c) && (c <=? 13) || (c =? 32)) with false by lia. reflexivity.
 Qed.
 
 Lemma strip_digits s : forallb is_decimal s = true -> strip s = s.
